@@ -165,9 +165,11 @@ func (s *Session) startTransaction(ctx context.Context, opts ...*options.Transac
 	}
 	s.starting = true
 	s.mutex.Unlock()
+	vhook("session.start", s.engine, nil)
 
 	// create transaction
 	txn, err := s.engine.Begin(ctx, true)
+	vhook("session.begun", s.engine, txn)
 
 	// finalize under the lock; always clear the starting flag
 	s.mutex.Lock()
